@@ -173,6 +173,28 @@ fn lib_body(rng: &mut Rng, prefix: &str, n_syms: usize) -> (String, Vec<String>)
         }
         syms.push(name);
     }
+    // data whose bytes are computed: text in the three encodings (upper case, mixed case, punctuation and
+    // graphics characters), expressions, alignment, loops, conditionals
+    if rng.chance(1, 2) {
+        const DATA: &[&str] = &[
+            "    .text \"Hello World\"\n",
+            "    .text ascii \"MiXeD Case 123 !?\"\n",
+            "    .text petscii \"HELLO WORLD\"\n",
+            "    .text petscii \"hello World, ABC xyz\"\n",
+            "    .text petscii \"\u{00a3}\u{2191}\u{2190}\u{2500}\u{2502}\u{03c0}\"\n",
+            "    .text petscreen \"HELLO World @[]\"\n",
+            "    .text petscreen \"\u{2660}\u{2665}\u{2666}\u{2663}\"\n",
+            "    .byte <$1234, >$1234, 1 + 2 * 3, 255 & 15, 1 << 4\n",
+            "    .word $1234 + 1, 65535\n    .dword $12345678\n",
+            "    .align 16\n    .byte 1\n    .align 4\n",
+            "    .loop 3 {\n        .byte index * 2\n        .word index\n    }\n",
+            "    .if 1 { nop } else { brk }\n    .if 0 { brk } else { nop\n    nop }\n",
+        ];
+        for _ in 0..rng.range(1, 3) {
+            s.push_str(&format!("{}_data{}:\n", prefix, rng.below(1000)));
+            s.push_str(*rng.pick(DATA));
+        }
+    }
     (s, syms)
 }
 
